@@ -60,7 +60,30 @@ pub fn check(c: &Case) -> CheckResult {
     Ok(o)
 }
 
+pub const NONSEP_KEY: &str = "C18-nonsep-premul-unchecked";
+
+/// while the unchecked-build finding is open, steer scenes away from the four non-separable modes
+fn remap_nonsep(nodes: &mut Vec<Node>) {
+    fn fix(b: &mut u8) {
+        if *b >= 24 {
+            *b = 13 + (*b - 24); // Screen, Overlay, Darken, Lighten instead
+        }
+    }
+    for n in nodes.iter_mut() {
+        match n {
+            Node::Op(Op::Fill(_, _, o)) | Node::Op(Op::FillRect(_, _, _, _, _, o)) | Node::Op(Op::Stroke(_, _, _, o)) | Node::Op(Op::DrawImageAt(_, _, _, o)) | Node::Op(Op::DrawImageSized(_, _, _, _, _, o)) => fix(&mut o.blend),
+            Node::Op(_) => {}
+            Node::Clip(_, inner) => remap_nonsep(inner),
+            Node::Layer(_, b, inner) => {
+                fix(b);
+                remap_nonsep(inner);
+            }
+        }
+    }
+}
+
 pub fn strategy(ctx: &Ctx) -> BoxedStrategy<Case> {
+    let steer = ctx.excluded(NONSEP_KEY);
     let ctx = ctx.clone();
     (2i32..=10, 2i32..=10)
         .prop_flat_map(move |(w, h)| {
@@ -68,7 +91,12 @@ pub fn strategy(ctx: &Ctx) -> BoxedStrategy<Case> {
             d.max_nodes = 5;
             (Just((w, h)), prop_oneof![3 => pixels((w * h) as usize, 0), 1 => pixels((w * h) as usize, 2)], tree(&ctx, &d))
         })
-        .prop_map(|((w, h), init, nodes)| Case { w, h, init, nodes })
+        .prop_map(move |((w, h), init, mut nodes)| {
+            if steer {
+                remap_nonsep(&mut nodes);
+            }
+            Case { w, h, init, nodes }
+        })
         .boxed()
 }
 
@@ -102,7 +130,13 @@ fn lattice() -> Vec<u32> {
     v
 }
 
-pub fn check_sweep(c: &SweepCase) -> CheckResult {
+pub fn check_sweep(c: &SweepCase, steer: bool) -> CheckResult {
+    if steer && c.mode >= 24 {
+        let mut o = Outcome::new();
+        o.fp = fp_of(c);
+        o.excluded_known = 1;
+        return Ok(o);
+    }
     let lat = lattice();
     let n = lat.len() as i32;
     let mut o = Outcome::new();
@@ -180,15 +214,17 @@ pub fn check_conv(c: &ConvCase) -> CheckResult {
 
 pub fn property(ctx: &Ctx) -> Property {
     let c = ctx.clone();
+    let steer = ctx.excluded(NONSEP_KEY);
     Property {
         id: "C18",
         rule: "part scenes: nested scenes (clips, layers with any opacity/blend, fills, fill_rects, strokes, masks, clear, image draws; solid/image/gradient sources, 28 modes, alpha in [0,1], all transform classes) on premultiplied initial contents; after every call every pixel of get_data() must satisfy r,g,b <= a. part sweep: exhaustive blend mode (28) x opacity-coverage byte {0,1,127,128,254,255} x {no clip, partial clip path} over a premultiplied boundary lattice of (source, destination) pairs, delivered through a layer. part conv: SolidSource::from_unpremultiplied_argb and From<Color> for all 256 alphas x 256 channel values: premultiplied and = round(a*c/255). Non-trivial: a call with a mode outside {Dst,Src,Clear,SrcOver} on a destination holding translucent pixels; distinct by hash of the case.",
         assumptions: vec![
             "checked build (overflow checks + debug assertions): sw_composite::pack_argb32's own debug assertion r,g,b <= a is live and counts as the same invariant; its known failures in the four non-separable modes are listed findings",
+            "a second pass (sweep + 20% of the scenes) runs in a build without overflow checks and debug assertions (what users ship), where arithmetic slips wrap instead of panicking; see coverage.unchecked_profile",
         ],
         parts: vec![
             part("scenes", 100_000, 2_000_000, move || strategy(&c), check),
-            enum_part("sweep", 28 * 12, 28 * 12, sweep_decode, check_sweep),
+            enum_part("sweep", 28 * 12, 28 * 12, sweep_decode, move |c| check_sweep(c, steer)),
             enum_part("conv", 256, 256, |_t, i| ConvCase { a: i as u8 }, check_conv),
         ],
         min_class_fraction: vec![("scenes", "blend:separable-or-nonseparable", 0.2), ("scenes", "op:pop_layer", 0.2)],
